@@ -643,7 +643,7 @@ func Replay(scenario string, raw json.RawMessage) []*mc.Violation {
 	switch {
 	case strings.HasPrefix(scenario, "determinism"):
 		var in DetIn
-		if json.Unmarshal(raw, &in) == nil {
+		if mc.UnmarshalInput(raw, &in) == nil {
 			if v := checkDet(scenario, in); v != nil {
 				return []*mc.Violation{v}
 			}
@@ -654,7 +654,7 @@ func Replay(scenario string, raw json.RawMessage) []*mc.Violation {
 		return nil
 	default:
 		var in In
-		if json.Unmarshal(raw, &in) == nil {
+		if mc.UnmarshalInput(raw, &in) == nil {
 			if v, _ := checkTotal(scenario, in, false); v != nil {
 				return []*mc.Violation{v}
 			}
